@@ -5,32 +5,46 @@ import Cel.Model.PrimD
 namespace Cel.Bridge.Eval
 open Cel
 
+/-- equality as SETS: the models only ask `contains`, and Python's `except (A, B)`, a set literal and the keys of a
+dict mean the same in any order — a reordered tuple / table must not break the bridge, a changed member must -/
+def sameSet {α : Type} [BEq α] (a b : List α) : Bool := a.all b.contains && b.all a.contains
+
+/-- what `sameSet` gives the models: the same answer to every `contains` question -/
+theorem sameSet_contains {α : Type} [BEq α] [LawfulBEq α] {a b : List α} (h : sameSet a b = true) (x : α) :
+    a.contains x = b.contains x := by
+  simp only [sameSet, Bool.and_eq_true, List.all_eq_true] at h
+  cases hx : a.contains x <;> cases hy : b.contains x <;> try rfl
+  · have hm : x ∈ b := List.contains_iff_mem.mp hy
+    have := h.2 x hm; simp_all
+  · have hm : x ∈ a := List.contains_iff_mem.mp hx
+    have := h.1 x hm; simp_all
+
 /-- handler sets of the interpreter rules, as `evalI` catches them -/
-theorem handlers_unary : Gen.Eval.handlers_unary = HI.unary := by decide
-theorem handlers_addition : Gen.Eval.handlers_addition = HI.addition := by decide
-theorem handlers_multiplication : Gen.Eval.handlers_multiplication = HI.multiplication := by decide
-theorem handlers_relation : Gen.Eval.handlers_relation = HI.relation := by decide
-theorem handlers_member_index : Gen.Eval.handlers_member_index = HI.memberIndex := by decide
-theorem handlers_logical : Gen.Eval.handlers_expr = HI.logical ∧ Gen.Eval.handlers_conditionalor = HI.logical ∧
-    Gen.Eval.handlers_conditionaland = HI.logical := by decide
-theorem handlers_map_lit : Gen.Eval.handlers_map_lit = HI.mapLit := by decide
-theorem handlers_literal : Gen.Eval.handlers_literal = HI.literal := by decide
+theorem handlers_unary : sameSet Gen.Eval.handlers_unary (HI.unary) = true := by decide
+theorem handlers_addition : sameSet Gen.Eval.handlers_addition (HI.addition) = true := by decide
+theorem handlers_multiplication : sameSet Gen.Eval.handlers_multiplication (HI.multiplication) = true := by decide
+theorem handlers_relation : sameSet Gen.Eval.handlers_relation (HI.relation) = true := by decide
+theorem handlers_member_index : sameSet Gen.Eval.handlers_member_index (HI.memberIndex) = true := by decide
+theorem handlers_logical : sameSet Gen.Eval.handlers_expr (HI.logical) = true ∧ sameSet Gen.Eval.handlers_conditionalor (HI.logical) = true ∧
+    sameSet Gen.Eval.handlers_conditionaland (HI.logical) = true := by decide
+theorem handlers_map_lit : sameSet Gen.Eval.handlers_map_lit (HI.mapLit) = true := by decide
+theorem handlers_literal : sameSet Gen.Eval.handlers_literal (HI.literal) = true := by decide
 /-- the `try` around the function application in `function_eval`/`method_eval` (the `KeyError` handler
 belongs to the name lookup, modelled by `isFun`) -/
-theorem handlers_call : Gen.Eval.handlers_function_eval = .keyError :: HI.call ∧
-    Gen.Eval.handlers_method_eval = .keyError :: HI.call := by decide
-theorem handlers_ident : Gen.Eval.handlers_ident = [.keyError] := by decide
+theorem handlers_call : sameSet Gen.Eval.handlers_function_eval (.keyError :: HI.call) = true ∧
+    sameSet Gen.Eval.handlers_method_eval (.keyError :: HI.call) = true := by decide
+theorem handlers_ident : sameSet Gen.Eval.handlers_ident ([.keyError]) = true := by decide
 /-- macro bodies: `build_ss_macro_eval` catches CELEvalError; `build_macro_eval` catches nothing, the
 map/filter/exists_one branches catch CELEvalError around the whole iteration -/
-theorem handlers_macros : Gen.Eval.handlers_ss_macro = HI.macroBody ∧ Gen.Eval.handlers_macro_plain = [] ∧
-    Gen.Eval.handlers_macro_map = HI.macroBody ∧ Gen.Eval.handlers_macro_filter = HI.macroBody ∧
-    Gen.Eval.handlers_macro_exists_one = HI.macroBody := by decide
-theorem interp_reducers : Gen.Eval.interp_all_reducer_catches = HI.logical ∧
-    Gen.Eval.interp_exists_reducer_catches = HI.logical := by decide
+theorem handlers_macros : sameSet Gen.Eval.handlers_ss_macro (HI.macroBody) = true ∧ sameSet Gen.Eval.handlers_macro_plain ([]) = true ∧
+    sameSet Gen.Eval.handlers_macro_map (HI.macroBody) = true ∧ sameSet Gen.Eval.handlers_macro_filter (HI.macroBody) = true ∧
+    sameSet Gen.Eval.handlers_macro_exists_one (HI.macroBody) = true := by decide
+theorem interp_reducers : sameSet Gen.Eval.interp_all_reducer_catches (HI.logical) = true ∧
+    sameSet Gen.Eval.interp_exists_reducer_catches (HI.logical) = true := by decide
 /-- classes `result()` converts -/
-theorem result_caught : Gen.Eval.resultCaught = resultCaughtC := by decide
+theorem result_caught : sameSet Gen.Eval.resultCaught (resultCaughtC) = true := by decide
 /-- `Transpiler.evaluate` converts every escaping exception (`runC`) -/
-theorem evaluate_blanket : Gen.Eval.evaluateBlanket = [.other] := by decide
+theorem evaluate_blanket : sameSet Gen.Eval.evaluateBlanket ([.other]) = true := by decide
 /-- where the templates put `result()`: 3 operands of `?:`, 2 of `||`, 2 of `&&`, the argument of `has`,
 none in the macro template (the `macro_*` helpers decide), and around the whole program -/
 theorem template_results : Gen.Eval.template_expr_result_operands = 3 ∧
@@ -46,7 +60,13 @@ theorem macro_helpers :
     Gen.Eval.macro_exists_coerces_BoolType = true ∧
     Gen.Eval.macro_map_body_in_result = false ∧ Gen.Eval.macro_map_coerces_BoolType = false ∧
     Gen.Eval.macro_filter_body_in_result = false ∧ Gen.Eval.macro_filter_coerces_BoolType = false ∧
-    Gen.Eval.macro_exists_one_body_in_result = false := by decide
+    Gen.Eval.macro_exists_one_body_in_result = false ∧ Gen.Eval.macro_exists_one_coerces_BoolType = true := by decide
+/-- `macro_map`/`macro_filter`/`macro_exists_one` run the body on EVERY element of the source (`mapMV`/`filterMV`/
+`countMV` have no early exit): no `break`/`return` inside their loops, no `any()`/`next()`-style consumer.  For these
+three an element that fails after the answer is "settled" must still fail the macro, as it does in the interpreter
+(`Cel.Props.C03.existsOne_fails_on_late_error`).  (`macro_all`/`macro_exists` may stop early harmlessly.) -/
+theorem macro_helpers_traverse_all : Gen.Eval.macro_map_may_stop_early = false ∧
+    Gen.Eval.macro_filter_may_stop_early = false ∧ Gen.Eval.macro_exists_one_may_stop_early = false := by decide
 /-- `has()`: BoolType in the interpreter, a Python bool in the template (D6) -/
 theorem has_results : Gen.Eval.has_interp_booltype = true ∧ Gen.Eval.has_template_pybool = true := by decide
 /-- the interpreter inspects error values in call arguments, list elements, map entries, field selection and
@@ -56,8 +76,10 @@ theorem interp_error_checks : Gen.Eval.function_eval_checks_error_values = true 
     Gen.Eval.mapinits_checks_error_values = true ∧ Gen.Eval.member_dot_checks_error_values = true ∧
     Gen.Eval.macro_receiver_error_check = true ∧ Gen.Eval.macro_receiver_iterable_check = true := by decide
 /-- both runners treat the same names as macros -/
-theorem macro_names : Gen.Eval.macrosInterp = Gen.Eval.macrosCompiled ∧
-    Gen.Eval.macrosInterp = ["all", "exists", "exists_one", "filter", "map", "min", "reduce"] := by decide
-theorem base_functions : Gen.Eval.baseFunctions = PrimD.baseFunctions := by decide
+theorem macro_names : sameSet Gen.Eval.macrosInterp Gen.Eval.macrosCompiled = true ∧
+    sameSet Gen.Eval.macrosInterp ["all", "exists", "exists_one", "filter", "map", "min", "reduce"] = true := by decide
+/-- the keys of `base_functions`, as a set (entries of the dict literal in any order), without duplicates lost -/
+theorem base_functions : sameSet Gen.Eval.baseFunctions PrimD.baseFunctions = true ∧
+    Gen.Eval.baseFunctions.length = PrimD.baseFunctions.length := by decide
 
 end Cel.Bridge.Eval
